@@ -12,6 +12,7 @@ from __future__ import annotations
 
 import collections
 import math
+import os
 import warnings
 
 import numpy as np
@@ -193,6 +194,9 @@ class DataboxWorld(World):
         if op == "share" and a["src_name"] not in self.boxes[a["src_box"]]:
             return False
         return True
+
+    def unjudged(self, step):
+        return step["op"] == "import" and self.disk.get(step["args"]["path"]) in (None, "torn")
 
     def retire(self, handles):
         for h in handles:
@@ -1845,6 +1849,24 @@ class DataboxWorld(World):
             pred = ",".join(x for x in (pred, "start_period_only") if x)
             self.probes["import_start_period_only"] += 1
         source = __import__("pathlib").Path(path) if a.get("pathlike") else path
+        if rec is None or rec == "torn":
+            # reading a torn file is counted, not judged - and not waited for either: garbage parsed into periods millennia
+            # apart makes the reader pad arrays by the gigabyte; the harness gives it a few seconds and moves on (the
+            # outcome string does not say how it ended, so that the event log stays a function of the seed)
+            from ..kit.core import _alarm
+
+            class _Abandon(BaseException):
+                pass
+            try:
+                with _alarm(float(os.environ.get("VERIF_TORN_READ_S", "4")), _Abandon):
+                    status, r, fired = self._run("import", pred, lambda: ir.Databox.from_csv_file(source, **kw), plan=plan)
+            except _Abandon:
+                status, r, fired = "abandoned", None, []
+            self.probes["import_opens_total"] += self.fs.totals["open"] - opens_before
+            self._check_heap("import", pred)
+            self._check_bindings_unchanged("import", pred)
+            self.probes["torn_read_" + {"ok": "returned", "abandoned": "abandoned"}.get(status, "raised")] += 1
+            return "torn"
         status, r, fired = self._run("import", pred, lambda: ir.Databox.from_csv_file(source, **kw), plan=plan)
         faulted = any(k not in ("short_write", "short_read", "eintr") for k in fired)
         self.probes["import_opens_total"] += self.fs.totals["open"] - opens_before
